@@ -254,43 +254,6 @@ fn merge(into: &mut WorkerStats, s: WorkerStats) {
     into.hashes.extend(s.hashes);
 }
 
-struct Child {
-    child: std::process::Child,
-    wid: usize,
-    start: u64,
-    end: u64,
-    stride: u64,
-    core: usize,
-}
-
-fn spawn_worker(prop: &str, tier: Tier, seed: u64, start: u64, end: u64, stride: u64, hashes: bool, wid: usize, core: usize) -> std::io::Result<Child> {
-    let exe = std::env::current_exe()?;
-    let mut cmd = Command::new("taskset");
-    cmd.arg("-c")
-        .arg(core.to_string())
-        .arg(exe)
-        .arg("worker")
-        .arg(prop)
-        .arg(tier_name(tier))
-        .arg(seed.to_string())
-        .arg(start.to_string())
-        .arg(end.to_string())
-        .arg(stride.to_string())
-        .arg(if hashes { "1" } else { "0" })
-        .arg(wid.to_string())
-        .stdout(Stdio::piped())
-        .stderr(Stdio::piped());
-    let child = cmd.spawn()?;
-    Ok(Child {
-        child,
-        wid,
-        start,
-        end,
-        stride,
-        core,
-    })
-}
-
 pub struct BatchResult {
     pub stats: WorkerStats,
     pub fingerprints: HashSet<u64>,
@@ -299,30 +262,51 @@ pub struct BatchResult {
     pub harness_errors: Vec<String>,
 }
 
-/// Run indices [0, total) over `nworkers` pinned processes.
-pub fn run_batch(prop: &str, tier: Tier, seed: u64, lo: u64, total: u64, nworkers: usize, hashes: bool, core_offset: usize) -> BatchResult {
-    let mut res = BatchResult {
-        stats: WorkerStats::default(),
-        fingerprints: HashSet::new(),
-        crashes: vec![],
-        harness_errors: vec![],
-    };
-    let ncores = std::thread::available_parallelism().map(|n| n.get()).unwrap_or(1);
-    let nworkers = nworkers.max(1).min(total.max(1) as usize);
-    let mut pending: Vec<Child> = Vec::new();
-    for w in 0..nworkers {
-        match spawn_worker(prop, tier, seed, lo + w as u64, lo + total, nworkers as u64, hashes, w, (w + core_offset) % ncores) {
-            Ok(c) => pending.push(c),
-            Err(e) => res.harness_errors.push(format!("cannot start worker: {}", e)),
+#[derive(Default)]
+struct SlotResult {
+    stats: Vec<WorkerStats>,
+    crashes: Vec<(u64, String)>,
+    errors: Vec<String>,
+}
+
+/// One worker slot: run its index sequence in (possibly several successive) pinned processes.
+fn run_slot(prop: String, tier: Tier, seed: u64, mut start: u64, end: u64, stride: u64, hashes: bool, wid: usize, core: usize) -> SlotResult {
+    let mut res = SlotResult::default();
+    let exe = match std::env::current_exe() {
+        Ok(e) => e,
+        Err(e) => {
+            res.errors.push(format!("current_exe: {}", e));
+            return res;
         }
-    }
-    while let Some(ch) = pending.pop() {
-        let Child { child, wid, start, end, stride, core } = ch;
-        let out = match child.wait_with_output() {
+    };
+    let mut restarts = 0;
+    while start < end {
+        restarts += 1;
+        if restarts > 100_000 {
+            res.errors.push("too many worker restarts".into());
+            break;
+        }
+        let out = Command::new("taskset")
+            .arg("-c")
+            .arg(core.to_string())
+            .arg(&exe)
+            .arg("worker")
+            .arg(&prop)
+            .arg(tier_name(tier))
+            .arg(seed.to_string())
+            .arg(start.to_string())
+            .arg(end.to_string())
+            .arg(stride.to_string())
+            .arg(if hashes { "1" } else { "0" })
+            .arg(wid.to_string())
+            .stdout(Stdio::piped())
+            .stderr(Stdio::piped())
+            .output();
+        let out = match out {
             Ok(o) => o,
             Err(e) => {
-                res.harness_errors.push(format!("worker wait failed: {}", e));
-                continue;
+                res.errors.push(format!("cannot run worker: {}", e));
+                break;
             }
         };
         let text = String::from_utf8_lossy(&out.stdout);
@@ -337,46 +321,67 @@ pub fn run_batch(prop: &str, tier: Tier, seed: u64, lo: u64, total: u64, nworker
         }
         match stats {
             Some(s) => {
-                if let Ok(b) = std::fs::read(&s.fp_file) {
-                    for ch in b.chunks_exact(8) {
-                        res.fingerprints.insert(u64::from_le_bytes(ch.try_into().unwrap()));
-                    }
-                    let _ = std::fs::remove_file(&s.fp_file);
-                }
-                let (next, done) = (s.next_index, s.done);
-                merge(&mut res.stats, s);
-                if !done {
-                    match spawn_worker(prop, tier, seed, next, end, stride, hashes, wid, core) {
-                        Ok(c) => pending.push(c),
-                        Err(e) => res.harness_errors.push(format!("cannot restart worker: {}", e)),
-                    }
+                start = s.next_index;
+                let done = s.done;
+                res.stats.push(s);
+                if done {
+                    break;
                 }
             }
             None => {
                 let err = String::from_utf8_lossy(&out.stderr);
+                let tail = err.lines().rev().take(6).collect::<Vec<_>>().join(" | ");
                 let status = format!("{:?}", out.status);
                 match last_run {
                     Some(idx) => {
-                        res.crashes.push((idx, format!("worker died ({}) during run {}: {}", status, idx, err.lines().rev().take(6).collect::<Vec<_>>().join(" | "))));
-                        // continue after the crashing index
-                        let next = idx + stride;
-                        if next < end {
-                            match spawn_worker(prop, tier, seed, next, end, stride, hashes, wid, core) {
-                                Ok(c) => pending.push(c),
-                                Err(e) => res.harness_errors.push(format!("cannot restart worker: {}", e)),
-                            }
-                        }
-                        // the runs before the crash in this process are lost for the statistics; re-run them is not needed for the verdict
+                        res.crashes.push((idx, format!("worker process died ({}) during run index {}: {}", status, idx, tail)));
+                        start = idx + stride;
                     }
-                    None => res.harness_errors.push(format!(
-                        "worker {} (start {}) died without statistics: {} {}",
-                        wid,
-                        start,
-                        status,
-                        err.lines().rev().take(8).collect::<Vec<_>>().join(" | ")
-                    )),
+                    None => {
+                        res.errors.push(format!("worker {} (start {}) died without statistics: {} {}", wid, start, status, tail));
+                        break;
+                    }
                 }
             }
+        }
+    }
+    res
+}
+
+/// Run indices [lo, lo+total) over `nworkers` pinned processes.
+pub fn run_batch(prop: &str, tier: Tier, seed: u64, lo: u64, total: u64, nworkers: usize, hashes: bool, core_offset: usize) -> BatchResult {
+    let mut res = BatchResult {
+        stats: WorkerStats::default(),
+        fingerprints: HashSet::new(),
+        crashes: vec![],
+        harness_errors: vec![],
+    };
+    let ncores = std::thread::available_parallelism().map(|n| n.get()).unwrap_or(1);
+    let nworkers = nworkers.max(1).min(total.max(1) as usize);
+    let mut handles = Vec::new();
+    for w in 0..nworkers {
+        let prop = prop.to_string();
+        let core = (w + core_offset) % ncores;
+        handles.push(std::thread::spawn(move || {
+            run_slot(prop, tier, seed, lo + w as u64, lo + total, nworkers as u64, hashes, w, core)
+        }));
+    }
+    for h in handles {
+        match h.join() {
+            Ok(slot) => {
+                for s in slot.stats {
+                    if let Ok(b) = std::fs::read(&s.fp_file) {
+                        for ch in b.chunks_exact(8) {
+                            res.fingerprints.insert(u64::from_le_bytes(ch.try_into().unwrap()));
+                        }
+                        let _ = std::fs::remove_file(&s.fp_file);
+                    }
+                    merge(&mut res.stats, s);
+                }
+                res.crashes.extend(slot.crashes);
+                res.harness_errors.extend(slot.errors);
+            }
+            Err(_) => res.harness_errors.push("worker slot thread panicked".into()),
         }
     }
     res
@@ -409,13 +414,16 @@ fn shrink_candidates(sc: &Scenario) -> Vec<Scenario> {
     use crate::scenario::*;
     let mut out = Vec::new();
     // drop a whole connection
-    if sc.conns.len() > 1 {
+    if sc.conns.iter().filter(|c| !c.disabled).count() > 1 {
         for i in 0..sc.conns.len() {
-            let mut s = sc.clone();
-            s.conns[i].steps.clear();
-            if sc.conns[i].steps.is_empty() {
+            if sc.conns[i].disabled {
                 continue;
             }
+            let mut s = sc.clone();
+            s.conns[i].disabled = true;
+            s.conns[i].steps.clear();
+            let prefix = format!("c{}r", i);
+            s.programs.retain(|k, _| !k.starts_with(&prefix));
             out.push(s);
         }
     }
